@@ -5,8 +5,9 @@ File: 61 bytes, 2-of-3, 3 segments of 22/22/17 bytes (AES-block and segment boun
     read on a node that already served another range; the same for literal files of 0, 1, 55 bytes;
 (b) every multiset of 2 (quick) / 3 (thorough) ranges from a 6-element catalogue issued concurrently
     on ONE node object, under every schedule with <= d deviations, where a deviation is a reordered
-    delivery, an early timer, or a consumer reaction at any write: pause (resumed later as a
-    scheduler action) or stopProducing.
+    delivery, an early timer, or a consumer reaction: pause at a write (resumed later as a
+    scheduler action) or stopProducing at a write or at any point between writes; both on a fresh
+    node and on a node that has already completed a read.
 Oracle: each consumer receives exactly plaintext[offset:offset+size] clipped at EOF (nothing when
 offset >= EOF); a stopped read errbacks with DownloadStopped (or had already received everything)
 and the other reads still complete correctly; every Deferred fires.
@@ -41,6 +42,8 @@ def conc_cases(r):
     out = []
     for combo in itertools.combinations_with_replacement(range(len(CONC) - 1), r):
         out.append(dict(BASE, consumer_choices=True, groups=[[CONC[i] for i in combo]]))
+        # the same on a node that already knows the segment size (a first read is over)
+        out.append(dict(BASE, consumer_choices=True, groups=[[[1, 1]], [CONC[i] for i in combo]], explore_groups=[1]))
     return out
 
 
@@ -82,7 +85,8 @@ def run(tier, seed):
     res.merge(common.pmap(literal_chunk, lits, (seed,)))
     n0 = res.counts.get("executions", 0)
     if tier == "quick":
-        plan = [(conc_cases(2), 2)]
+        cc = conc_cases(2)
+        plan = [(cc, 1), ([c for c in cc if len(c["groups"]) == 1][::2], 2)]
     else:
         plan = [(conc_cases(2), 3), (conc_cases(3), 2)]
     desc = []
